@@ -380,26 +380,28 @@ def _run(ctx):
     w = ctx.pick(1, 1)
     trees = SP.splitter_trees(FIELDS, 4, max_wrappers=w, labellings="ordered")
 
-    # ---- always-on exhaustive core
-    core_trees = [t for t in trees if len(SP.fields_of(t)) <= 3]
-    dom_core = ctx.domain(
-        "state/core",
-        bound="every splitter tree over <= 3 of the fields a,b,c,d (leaves in alphabetical order; list/tuple nodes of arity >= 2 nested "
-        "arbitrarily; at most one one-element list/tuple wrapper around the root, an inner node or a leaf) x every length vector in {0,1,2}^k",
-        rule="one State.prepare_states per (tree, length vector); key = (canonical tree, lengths); non-trivial = >= 2 fields and some length >= 2",
-        exhaustive=True,
-    )
-    tasks = [(SP.to_json(t), all_lens(SP.fields_of(t), 0, 2)) for t in core_trees]
-    tot = _collect_state(ctx, dom_core, pmap(_w_state, tasks, chunksize=16, serial=not ctx.thorough))
-    ph.mark('state-1')
+    # ---- always-on exhaustive core (quick tier; in the thorough tier it is subsumed by state/full)
+    tot = {"reject": 0, "open": 0, "open_rejected": 0}
+    if not ctx.thorough:
+        core_trees = [t for t in trees if len(SP.fields_of(t)) <= 3]
+        dom_core = ctx.domain(
+            "state/core",
+            bound="every splitter tree over <= 3 of the fields a,b,c,d (leaves in alphabetical order; list/tuple nodes of arity >= 2 nested "
+            "arbitrarily; at most one one-element list/tuple wrapper around the root, an inner node or a leaf) x every length vector in {0,1,2}^k",
+            rule="one State.prepare_states per (tree, length vector); key = (canonical tree, lengths); non-trivial = >= 2 fields and some length >= 2",
+            exhaustive=True,
+        )
+        tasks = [(SP.to_json(t), all_lens(SP.fields_of(t), 0, 2)) for t in core_trees]
+        tot = _collect_state(ctx, dom_core, pmap(_w_state, tasks, serial=True))
+        ph.mark("state/core")
 
     # ---- the property's own bound: <= 4 fields x {0..3}^k
     if ctx.thorough:
         dom = ctx.domain(
             "state/full",
-            bound="every splitter tree over <= 4 of the fields a,b,c,d (leaves in alphabetical order, <= 1 one-element wrapper) x every "
-            "length vector in {0..3}^k -- the quantifier of the property",
-            rule="as state/core",
+            bound="every splitter tree over <= 4 of the fields a,b,c,d (leaves in alphabetical order; list/tuple nodes of arity >= 2 nested arbitrarily; "
+            "at most one one-element list/tuple wrapper around the root, an inner node or a leaf) x every length vector in {0..3}^k -- the quantifier of the property",
+            rule="one State.prepare_states per (tree, length vector); key = (canonical tree, lengths); non-trivial = >= 2 fields and some length >= 2",
             exhaustive=True,
         )
         tasks = [(SP.to_json(t), all_lens(SP.fields_of(t), 0, 3)) for t in trees]
@@ -408,12 +410,13 @@ def _run(ctx):
         dom_p = ctx.domain(
             "state/all-labellings",
             bound="every wrapper-free splitter tree over <= 4 fields with EVERY injective labelling of its leaves by a,b,c,d (field order in "
-            "the splitter independent of the field order of the task) x every length vector in {0..3}^k; plus every tree over <= 3 fields "
-            "with up to two one-element wrappers x {0..3}^k",
-            rule="as state/core",
+            "the splitter independent of the field order of the task; alphabetical labellings are in state/full) x every length vector in {0..3}^k; plus every tree over <= 3 fields "
+            "with exactly two one-element wrappers x {0..3}^k",
+            rule="as state/full",
             exhaustive=True,
         )
-        extra = SP.splitter_trees(FIELDS, 4, max_wrappers=0, labellings="all") + SP.splitter_trees(FIELDS, 3, max_wrappers=2, labellings="ordered")
+        seen = {SP.canon(t) for t in trees}
+        extra = [t for t in SP.splitter_trees(FIELDS, 4, max_wrappers=0, labellings="all") + SP.splitter_trees(FIELDS, 3, max_wrappers=2, labellings="ordered") if SP.canon(t) not in seen]
         tasks = [(SP.to_json(t), all_lens(SP.fields_of(t), 0, 3)) for t in extra]
         t3 = _collect_state(ctx, dom_p, pmap(_w_state, tasks, chunksize=8))
         ph.mark('state-3')
